@@ -761,8 +761,13 @@ public:
       typename ttbl_t::term_map_t gen_map;
       dom_var_alloc_t palloc(left._alloc, right._alloc);
 
+      // A variable that only appears in right is unconstrained in
+      // left: give it a fresh term so that it is compared too.
+      for (auto p : right._var_map) {
+        left.term_of_var(p.first);
+      }
+
       // Build up the mapping of right onto left, variable by variable.
-      // Assumption: the set of variables in left & right are common.
       for (auto p : left._var_map) {
         if (!left._ttbl.map_leq(right._ttbl, left.term_of_var(p.first),
                                 right.term_of_var(p.first), gen_map))
